@@ -81,20 +81,11 @@ Proof.
   symmetry. exact (Hc b from E).
 Qed.
 
-(* a prefix the genesis does not carry comes back empty / zeroed: a state with a record there
-   does not survive *)
+(* a prefix the genesis does not carry comes back empty: a state with a record there does not
+   survive *)
 Lemma lost_refuted dv t m b :
   In b (map p_byte (pref_rows t m)) ->
   classify t m b = CovLost ->
-  exists s, get (roundtrip dv t m s) b <> get s b.
-Proof.
-  intros Hin Hl. exists [(b, [(1, 1)])].
-  rewrite (roundtrip_spec dv t m _ b Hin), Hl. unfold get. cbn. rewrite Z.eqb_refl. cbn. discriminate.
-Qed.
-
-Lemma keysonly_refuted dv t m b :
-  In b (map p_byte (pref_rows t m)) ->
-  classify t m b = CovKeysOnly ->
   exists s, get (roundtrip dv t m s) b <> get s b.
 Proof.
   intros Hin Hl. exists [(b, [(1, 1)])].
